@@ -144,6 +144,7 @@ type FSAnswer struct {
 
 // Sim is one simulated run.
 type Sim struct {
+	rootGid uint64
 	Tape *Tape
 
 	tasks  []*Task
@@ -210,8 +211,41 @@ func New(tape *Tape) *Sim {
 	}
 	s.FS = newFSState()
 	s.wake = make(chan struct{}, 1)
+	s.rootGid = goid()
 	setCur(s)
 	return s
+}
+
+// RootDeadlock is the panic value raised when the scheduler goroutine itself (the
+// single thread that runs a scenario's sequential set-up and probes) asks for a
+// lock that is not free: no other goroutine is running, so nothing can ever
+// release it -- an earlier call returned without unlocking, or the call locks twice.
+type RootDeadlock struct{ Site string }
+
+func (r RootDeadlock) Error() string { return "lock requested at " + r.Site + " can never be granted" }
+
+// rootTask stands for the scheduler goroutine in the lock model (locks taken by
+// the sequential part of a scenario).
+var rootTask = &Task{ID: -2, Name: "sequential-thread"}
+
+//go:norace
+func rootTook(obj uintptr, rw, read bool) {
+	s := cur
+	if s == nil {
+		return
+	}
+	l := s.lockOf(obj, rw)
+	if read {
+		l.readers = append(l.readers, rootTask)
+	} else {
+		l.w, l.wActive = rootTask, true
+	}
+}
+
+//go:norace
+func onRoot() bool {
+	s := cur
+	return s != nil && s.rootGid != 0 && goid() == s.rootGid
 }
 
 // Close deactivates the simulation.
@@ -755,6 +789,9 @@ func (s *Sim) lockCycle() string {
 		holder := ""
 		if l.w != nil {
 			holder = fmt.Sprintf("writer task %d", l.w.ID)
+			if l.w == rootTask {
+				holder = "the scenario's sequential thread (a call that has returned left it locked)"
+			}
 			if !l.wActive {
 				holder = fmt.Sprintf("pending writer task %d", l.w.ID)
 			}
@@ -1007,6 +1044,13 @@ func unlockNote(kind int, obj uintptr) {
 			if l := s.locks[obj]; l != nil && kind == 1 {
 				l.w = nil
 				l.wActive = false
+			} else if l != nil && kind == 2 {
+				for j := 0; j < len(l.readers); j++ {
+					if l.readers[j] == rootTask {
+						l.readers = append(l.readers[:j], l.readers[j+1:]...)
+						break
+					}
+				}
 			}
 		}
 		return
@@ -1016,7 +1060,13 @@ func unlockNote(kind int, obj uintptr) {
 
 // Lock / Unlock for sync.Mutex.
 func Lock(m *sync.Mutex, site string) {
-	lockReq(site, mutexAddr(m), KLock, "")
+	if !lockReq(site, mutexAddr(m), KLock, "") && onRoot() {
+		if !m.TryLock() {
+			panic(RootDeadlock{site})
+		}
+		rootTook(mutexAddr(m), false, false)
+		return
+	}
 	m.Lock()
 }
 
@@ -1027,7 +1077,13 @@ func Unlock(m *sync.Mutex, site string) {
 
 // RWLock etc. for sync.RWMutex.
 func RWLock(m *sync.RWMutex, site string) {
-	lockReq(site, rwAddr(m), KLock, "rw")
+	if !lockReq(site, rwAddr(m), KLock, "rw") && onRoot() {
+		if !m.TryLock() {
+			panic(RootDeadlock{site})
+		}
+		rootTook(rwAddr(m), true, false)
+		return
+	}
 	m.Lock()
 }
 
@@ -1037,7 +1093,13 @@ func RWUnlock(m *sync.RWMutex, site string) {
 }
 
 func RLock(m *sync.RWMutex, site string) {
-	lockReq(site, rwAddr(m), KRLock, "rw")
+	if !lockReq(site, rwAddr(m), KRLock, "rw") && onRoot() {
+		if !m.TryRLock() {
+			panic(RootDeadlock{site})
+		}
+		rootTook(rwAddr(m), true, true)
+		return
+	}
 	m.RLock()
 }
 
